@@ -151,6 +151,17 @@ def ensure_tools():
     return d
 
 
+def unmark(v):
+    """strings that are not valid UTF-8 arrive as a hex marker (gxtool hexInvalid): back to str with surrogateescape (exact bytes)"""
+    if isinstance(v, str):
+        return bytes.fromhex(v[5:]).decode("utf-8", "surrogateescape") if v.startswith("\ue000HEX:") else v
+    if isinstance(v, list):
+        return [unmark(x) for x in v]
+    if isinstance(v, dict):
+        return {unmark(k): unmark(x) for k, x in v.items()}
+    return v
+
+
 GXKEYS = ("id", "files", "patterns", "output", "flags", "version", "build_info", "dump", "keep_out", "no_output_flag",
           "no_input_flag", "extra_args")
 
@@ -192,7 +203,7 @@ def gx_run(d, cases, timeout=600, jobs=None):
     per = []
     for k, (rc, o, e) in enumerate(results):
         shutil.rmtree(tmpbase + "_%d" % k, ignore_errors=True)
-        lines = [json.loads(x) for x in o.splitlines() if x.strip()]
+        lines = [unmark(json.loads(x)) for x in o.split("\n") if x.strip()]
         if len(lines) != len(shards[k]):
             # the process died (panic outside recover / os.Exit): mark the case after the last answer
             # (a reported hang ends the process by itself: nothing crashed)
@@ -220,7 +231,7 @@ def gx_format(d, texts, timeout=600):
         return []
     p = subprocess.run([os.path.join(d, "gxtool"), "format"], input="\n".join(json.dumps(t) for t in texts) + "\n",
                        stdout=subprocess.PIPE, stderr=subprocess.PIPE, text=True, env=GOENV, timeout=timeout)
-    return [json.loads(l) for l in p.stdout.splitlines() if l.strip()]
+    return [json.loads(l) for l in p.stdout.split("\n") if l.strip()]
 
 
 def gx_api(d, sources, timeout=600):
@@ -229,4 +240,4 @@ def gx_api(d, sources, timeout=600):
         return []
     p = subprocess.run([os.path.join(d, "gxtool"), "api"], input="\n".join(json.dumps(t) for t in sources) + "\n",
                        stdout=subprocess.PIPE, stderr=subprocess.PIPE, text=True, env=GOENV, timeout=timeout)
-    return [json.loads(l) for l in p.stdout.splitlines() if l.strip()]
+    return [json.loads(l) for l in p.stdout.split("\n") if l.strip()]
